@@ -53,7 +53,7 @@ Proof. dec_eq; first [ apply constr_eq_dec | apply index_eq_dec | apply tdesc_eq
 Definition kind_eq_dec : forall a b : kind, {a = b} + {a <> b}.
 Proof. decide equality; first [apply ctype_eq_dec | apply (option_eq_dec ctype_eq_dec)]. Defined.
 Definition tkind_eq_dec : forall a b : tkind, {a = b} + {a <> b}.
-Proof. decide equality; first [apply kind_eq_dec | apply (list_eq_dec kind_eq_dec)]. Defined.
+Proof. decide equality; first [apply kind_eq_dec | apply (list_eq_dec kind_eq_dec) | apply str_eq_dec | apply ostr_eq_dec]. Defined.
 
 Definition decb {A} (d : forall a b : A, {a = b} + {a <> b}) (a b : A) : bool := if d a b then true else false.
 Lemma decb_true {A} (d : forall a b : A, {a = b} + {a <> b}) a b : decb d a b = true <-> a = b.
